@@ -215,4 +215,40 @@ mod verif_app_wit {
             assert_eq!(r.get("request"), Some(&bad), "the error response echoes the request it answers, found {}", r);
         }
     }
+
+    /// C19: with file output enabled, the file holds exactly ONE complete record per response of the batch -- for successes, failed searches AND queries rejected
+    /// during input processing -- each parsing back to a response that was returned; at parallelism 1..=3, both persistence policies
+    #[test]
+    fn c19_wit_one_record_per_response_in_the_file() {
+        use crate::app::compass::response::response_output_format::ResponseOutputFormat;
+        use crate::app::compass::response::response_output_policy::ResponseOutputPolicy;
+        use crate::app::compass::response::response_persistence_policy::ResponsePersistencePolicy;
+        let mut app = load_app();
+        let dir = std::env::temp_dir().join(format!("verif_c19_{}", std::process::id()));
+        std::fs::create_dir_all(&dir).unwrap();
+        let mut case = 0;
+        for parallelism in 1..=3usize { for keep in [true, false] {
+            case += 1;
+            let file = dir.join(format!("out_{}.json", case));
+            app.parallelism = parallelism;
+            app.response_persistence_policy = if keep { ResponsePersistencePolicy::PersistResponseInMemory } else { ResponsePersistencePolicy::DiscardResponseFromMemory };
+            app.response_output_policy = ResponseOutputPolicy::File { filename: file.to_str().unwrap().to_string(), format: ResponseOutputFormat::Json { newline_delimited: true }, file_flush_rate: None };
+            // 0,1,2: ordinary; 3: unreachable; 4: malformed (no origin); then two queries of the wrong JSON type, rejected during input processing
+            let mut batch: Vec<Value> = (0..5).map(query).collect();
+            batch.push(json!(7)); batch.push(json!("text"));
+            let n = batch.len();
+            let responses = app.run(batch, None).expect("user-level errors are responses, not a failed run");
+            let text = std::fs::read_to_string(&file).unwrap();
+            let records: Vec<Value> = text.lines().filter(|l| !l.trim().is_empty()).map(|l| serde_json::from_str(l).unwrap_or_else(|e| panic!("parallelism {} keep {}: a line of the file is not one complete JSON record ({}): {:?}", parallelism, keep, e, l))).collect();
+            assert_eq!(records.len(), n, "parallelism {} keep {}: one record per response in the file, found {} for {} queries", parallelism, keep, records.len(), n);
+            for q in [json!(7), json!("text"), query(0), query(3), query(4)] {
+                assert_eq!(records.iter().filter(|r| r.get("request") == Some(&q)).count(), 1, "parallelism {} keep {}: exactly one record for request {}", parallelism, keep, q);
+            }
+            if keep {
+                assert_eq!(responses.len(), n);
+                for r in responses.iter() { assert!(records.iter().any(|x| x.get("request") == r.get("request") && x.get("error").is_some() == r.get("error").is_some()), "the record of response {} is in the file", r["request"]); }
+            }
+        } }
+        let _ = std::fs::remove_dir_all(&dir);
+    }
 }
